@@ -99,7 +99,9 @@ def random_path(rng, names, sep, wild, maxlen):
     r = rng.random()
     if r < 0.25:
         root = names[0][1]
-        lead = rng.choice([root, root, root.upper(), "zz", "", "*" if wild else root])
+        # also root components that only *wildcard*-match the root name: `get` must treat them literally
+        lead = rng.choice([root, root, root.upper(), "zz", "", "*", "?" * len(root), root[:-1] + "?", root + "*",
+                           "*" + root[1:]])
         p = sep + lead + (sep + p if parts else "")
     elif r < 0.3:
         p = p + sep
